@@ -2,7 +2,8 @@
    Only statements here; proofs live in Proofs/Pipeline.v and Proofs/PipelineSpec.v.  Gen_C01 is
    regenerated from pyxel/pipelines/{pipeline,processor,model_group,model_function}.py on every run. *)
 From Coq Require Import List String ZArith Bool Arith Sorted Permutation.
-From PyxelV Require Import Model.Pipeline Proofs.Pipeline Proofs.PipelineSpec Proofs.PipelineEq Proofs.PipelineJudge.
+From PyxelV Require Import Model.Pipeline Model.PipelineHist.
+From PyxelV Require Import Proofs.Pipeline Proofs.PipelineSpec Proofs.PipelineEq Proofs.PipelineJudge Proofs.PipelineHist.
 From PyxelGen Require Import Gen_C01.
 Import ListNotations.
 Open Scope list_scope.
@@ -62,16 +63,22 @@ Print Assumptions C01_model_is_trace.
 
 (* what a "no violation" verdict of the correspondence leg means: the recorded calls are literally
    the observable projection (step, name, arguments) of the trace of the theorems below, for an
-   exposure and for every run of a sequential observation (the boolean comparisons decide equality) *)
+   exposure and for every run of an observation (the boolean comparisons decide equality).  The
+   specification accepts two readings of "exactly the arguments configured for it" for a model that
+   changes its container arguments in place: it is handed the configured objects themselves (the
+   code as it is; the trace of p) or a private copy (the trace of `freeze p`); the two coincide for
+   every pipeline without such a model (C01_no_growing_model). *)
 Theorem C01_judgement_sound :
   (forall c p debug t nodes,
      from_yaml (k_doc c) = Ok p -> k_mode c = Exposure debug -> k_observed c = Ran t nodes ->
-     agrees false spec_run c = true ->
-     t = map obs_of (trace debug p (k_steps c))) /\
+     spec_ok c = true ->
+     t = map obs_of (trace debug p (k_steps c)) \/
+     t = map obs_of (trace debug (freeze p) (k_steps c))) /\
   (forall c p runs t nodes,
      from_yaml (k_doc c) = Ok p -> k_mode c = Observation runs -> k_observed c = Ran t nodes ->
-     agrees false spec_run c = true ->
-     t = flat_map (fun os => map obs_of (trace false (apply_overrides p os) (k_steps c))) runs).
+     spec_ok c = true ->
+     t = flat_map (fun os => map obs_of (trace false (apply_overrides p os) (k_steps c))) runs \/
+     t = flat_map (fun os => map obs_of (trace false (freeze (apply_overrides p os)) (k_steps c))) runs).
 Proof. split; [exact judgement_sound_exposure|exact judgement_sound_observation]. Qed.
 Print Assumptions C01_judgement_sound.
 
@@ -118,13 +125,16 @@ Proof. exact empty_list_is_absent. Qed.
 Print Assumptions C01_empty_list_is_absent.
 
 (* every executed call is an enabled position of the configured pipeline and carries exactly the
-   name and the arguments configured for that position *)
+   name and the arguments configured for that position.  (For a model that changes its container
+   arguments in place, "configured" includes its own changes during the earlier steps of this run:
+   ModelFunction.__call__ hands over the stored objects themselves; `recv`.) *)
 Theorem C01_args_exact :
   forall debug p n c,
     In c (trace debug p n) ->
     c_step c < n /\
     exists ms m, get p (c_group c) = Some ms /\ nth_error ms (c_pos c) = Some m /\
-                 enabled m = true /\ c_name c = name m /\ c_args c = args m.
+                 enabled m = true /\ c_name c = name m /\ c_args c = recv (c_step c) m /\
+                 (grows m = false -> c_args c = args m).
 Proof. apply run_args_exact. Qed.
 Print Assumptions C01_args_exact.
 
@@ -153,6 +163,132 @@ Theorem C01_debug_irrelevant :
     snd (run_readouts true physical p n) = captures_of (trace true p n).
 Proof. apply run_debug_irrelevant. Qed.
 Print Assumptions C01_debug_irrelevant.
+
+(* ---------- configuration histories: what a run is judged against ---------- *)
+
+(* THE RUN THEOREM.  In any history of operations on any store of pipeline objects, the run started
+   by `ORun o m n` after the operations `pre` is a run of exactly the configuration object o has at
+   that time; and every run of a history is of this form.  (Both readings of in-place growth.) *)
+Theorem C01_history_run :
+  (forall inplace st pre o m n post p,
+     nth_error (exec_ops inplace st pre) o = Some p ->
+     hist_runs inplace st (pre ++ ORun o m n :: post) =
+     hist_runs inplace st pre ++
+     {| r_obj := o; r_cfg := p; r_mode := m; r_steps := n |} ::
+     hist_runs inplace (apply_op inplace (exec_ops inplace st pre) (ORun o m n)) post) /\
+  (forall inplace ops st r,
+     In r (hist_runs inplace st ops) ->
+     exists pre post,
+       ops = pre ++ ORun (r_obj r) (r_mode r) (r_steps r) :: post /\
+       nth_error (exec_ops inplace st pre) (r_obj r) = Some (r_cfg r)).
+Proof. split; [exact hist_runs_at|exact hist_runs_inv]. Qed.
+Print Assumptions C01_history_run.
+
+(* hence every run of every history satisfies the property with respect to the configuration AT THAT
+   TIME: sorted in the physical order, every enabled position exactly once per step, never a disabled
+   one, each with the arguments of that configuration *)
+Theorem C01_history_each_run :
+  forall inplace ops st r debug,
+    In r (hist_runs inplace st ops) ->
+    let t := trace debug (r_cfg r) (r_steps r) in
+    StronglySorted (key_lt physical) t /\
+    (forall step g i, count_pos t step g i = if executes (r_cfg r) (r_steps r) step g i then 1 else 0) /\
+    (forall c, In c t ->
+       exists ms m, get (r_cfg r) (c_group c) = Some ms /\ nth_error ms (c_pos c) = Some m /\
+                    enabled m = true /\ c_name c = name m /\ c_args c = recv (c_step c) m).
+Proof.
+  intros inplace ops st r debug _ t. split; [apply C01_sorted|]. split; [apply C01_exactly_once|].
+  intros c Hc. destruct (C01_args_exact debug _ _ c Hc) as (_ & ms & m & A & B & C & D & E & _).
+  exists ms, m. auto.
+Qed.
+Print Assumptions C01_history_each_run.
+
+(* an operation that does not write object o leaves it as it is: whatever happens to OTHER pipeline
+   objects (copies above all) and whatever runs in observation / calibration mode, object o keeps its
+   configuration *)
+Theorem C01_history_frame :
+  forall inplace ops st o,
+    o < List.length st -> (forall x, In x ops -> writes inplace x o = false) ->
+    nth_error (exec_ops inplace st ops) o = nth_error st o.
+Proof. exact exec_ops_frame. Qed.
+Print Assumptions C01_history_frame.
+
+(* a changed switch is honoured by the next run of that object (and by every later one until the
+   object is written again): the run is judged against the configuration with the new flag, so the
+   position executes once per step if it was switched on and never if it was switched off, and every
+   other position executes as before *)
+Theorem C01_history_toggle :
+  forall inplace st pre o g i b mid m n post p ms m0,
+    nth_error (exec_ops inplace st pre) o = Some p ->
+    get p g = Some ms -> nth_error ms i = Some m0 ->
+    (forall x, In x mid -> writes inplace x o = false) ->
+    hist_runs inplace st (pre ++ OSetEnabled o g i b :: mid ++ ORun o m n :: post) =
+      hist_runs inplace st (pre ++ OSetEnabled o g i b :: mid) ++
+      {| r_obj := o; r_cfg := set_enabled g i b p; r_mode := m; r_steps := n |} ::
+      hist_runs inplace
+        (apply_op inplace (exec_ops inplace st (pre ++ OSetEnabled o g i b :: mid)) (ORun o m n)) post /\
+    (forall debug step,
+       count_pos (trace debug (set_enabled g i b p) n) step g i = if Nat.ltb step n && b then 1 else 0) /\
+    (forall debug step g' i', (g' <> g \/ i' <> i) ->
+       count_pos (trace debug (set_enabled g i b p) n) step g' i' = count_pos (trace debug p n) step g' i').
+Proof.
+  intros inplace st pre o g i b mid m n post p ms m0 Hp Hg Hi W.
+  split; [eapply toggle_then_run; eauto|]. split.
+  - intros debug step. rewrite C01_exactly_once, (executes_set_enabled p n step g i b g i ms m0 Hg Hi).
+    rewrite group_eqb_refl, Nat.eqb_refl. reflexivity.
+  - intros debug step g' i' Hne. rewrite !C01_exactly_once.
+    rewrite (executes_set_enabled p n step g i b g' i' ms m0 Hg Hi).
+    destruct (group_eqb g' g) eqn:Eg; [|reflexivity]. apply group_eqb_eq in Eg.
+    destruct (Nat.eqb i' i) eqn:Ei; [|reflexivity]. apply Nat.eqb_eq in Ei.
+    destruct Hne as [H|H]; contradiction.
+Qed.
+Print Assumptions C01_history_toggle.
+
+(* a copy (deep copy of the pipeline or of its processor, pickle round trip) is a NEW object with the
+   configuration of its source; whatever is then done to one of the two never shows in the other *)
+Theorem C01_history_copy_isolated :
+  forall inplace st o k p ops,
+    nth_error st o = Some p ->
+    let st' := apply_op inplace st (OCopy o k) in
+    nth_error st' (List.length st) = Some p /\
+    ((forall x, In x ops -> writes inplace x o = false) ->
+     nth_error (exec_ops inplace st' ops) o = Some p) /\
+    ((forall x, In x ops -> writes inplace x (List.length st) = false) ->
+     nth_error (exec_ops inplace st' ops) (List.length st) = Some p).
+Proof.
+  intros inplace st o k p ops H st'. split.
+  - apply (copy_appends inplace st o k p H).
+  - apply (copy_isolated inplace st o k p ops H).
+Qed.
+Print Assumptions C01_history_copy_isolated.
+
+(* observation and calibration run copies: they never change any pipeline object; an exposure changes
+   its object only through a model that changes its own arguments in place *)
+Theorem C01_history_runs_leave_configuration :
+  (forall inplace st o m n, (forall d, m <> Exposure d) -> apply_op inplace st (ORun o m n) = st) /\
+  (forall inplace st o d n p,
+     nth_error st o = Some p -> no_grow p -> apply_op inplace st (ORun o (Exposure d) n) = st) /\
+  (forall p, no_grow p -> freeze p = p /\ forall n, age n p = p).
+Proof.
+  split; [exact run_copies_leave_store|]. split; [exact run_exposure_no_grow|].
+  intros p H. split; [apply freeze_no_grow; exact H|intro n; apply age_no_grow; exact H].
+Qed.
+Print Assumptions C01_history_runs_leave_configuration.
+
+(* what a "no violation" verdict on a history means: every run completed, and the calls recorded in
+   each exposure / observation run are literally the projection of the trace of the configuration
+   its object had when the run started *)
+Theorem C01_history_judgement_sound :
+  forall c p,
+    from_yaml (h_doc c) = Ok p -> hspec_ok c = true ->
+    Forall2 (fun r o => run_matches spec_run
+               {| r_obj := 0; r_cfg := r_cfg r; r_mode := r_mode r; r_steps := r_steps r |} o)
+            (hist_runs true [p] (h_ops c)) (h_observed c) \/
+    Forall2 (fun r o => run_matches frozen_run
+               {| r_obj := 0; r_cfg := r_cfg r; r_mode := r_mode r; r_steps := r_steps r |} o)
+            (hist_runs false [p] (h_ops c)) (h_observed c).
+Proof. exact hist_judgement_sound. Qed.
+Print Assumptions C01_history_judgement_sound.
 
 (* Run level (the returned result, not only the calls).  FULL statement: an exposure with debug capture
    on completes for every pipeline and makes the calls of the run without debug.  The faithful model
@@ -184,7 +320,7 @@ Print Assumptions C01_debug_runs_partial.
 
 (* ---------- non-vacuity: concrete instances of the hypotheses and of the model ---------- *)
 
-Definition m_ (n : string) (e : bool) (a : kwargs) : mfun := {| name := n; enabled := e; args := a |}.
+Definition m_ (n : string) (e : bool) (a : kwargs) : mfun := {| name := n; enabled := e; grows := false; args := a |}.
 
 Definition ex_a : doc :=
   [("data_processing", Some [m_ "d0" true [("k", VList [VInt 1; VStr "x"])]]);
